@@ -6,6 +6,7 @@
 
 pub mod batch;
 pub mod data;
+pub mod mem;
 pub mod oracle;
 
 use data::{Case, Comp, Degenerate, Init, Layout, Query, FAR_S, MAX_DIMS};
